@@ -24,8 +24,8 @@ type c08Apply struct {
 
 func init() {
 	register(&Prop{ID: "C08", Run: c08Run,
-		Rule: "recon: L is a generated root container in which every item of every list holds at least one scalar; R is derived from L exactly as the quantifier says: keyed subtrees deleted, new keyed subtrees (arbitrary) added under fresh keys, lists replaced by other lists (unrelated ones, near misses, and copies that differ in exactly one scalar by a confusable pair: same number under another Go type, neighbouring integers beyond 2^53, a value and its printed text), nothing else; flattened views are compared as (path, Go type, text) triples; the reconstruction predicate is evaluated only when the decidable domain predicate Compat(L,R) && ItemsHaveScalars(L) holds (it does for every generated case; it guards shrinking). empty / delabsent / single: generated documents and flatten-style paths (1-4 components, 0-2 index groups each, aimed at existing positions two times out of three). seq: 1-6 random modifications, model correspondence only. A recon case is non-trivial when Diff(L,R) is non-empty; the others always; distinct = distinct canonical case JSON (hash).",
-		Assumptions: []string{"keys are non-empty over [A-Za-z0-9_-]; list indices are canonical decimals",
+		Rule: "recon: L is a generated root container in which every item of every list holds at least one scalar; R is derived from L exactly as the quantifier says: keyed subtrees deleted, new keyed subtrees (arbitrary) added under fresh keys, lists replaced by other lists (unrelated ones, near misses, and copies that differ in exactly one scalar by a confusable pair: same number under another Go type, neighbouring integers beyond 2^53, a value and its printed text), nothing else; flattened views are compared as (path, Go type, text) triples; the reconstruction predicate is evaluated only when the decidable domain predicate Compat(L,R) && ItemsHaveScalars(L) holds (it does for every generated case; it guards shrinking). empty / delabsent / single: generated documents and flatten-style paths (1-4 components, 0-2 index groups each, aimed at existing positions two times out of three, sometimes ending in or containing the empty name). seq: 1-6 random modifications, model correspondence only. A recon case is non-trivial when Diff(L,R) is non-empty; the others always; distinct = distinct canonical case JSON (hash).",
+		Assumptions: []string{"member names are arbitrary strings without the path metacharacters '.', '[' and ']' (four pools: plain, names interleaving with a. / a[ in byte order, unusual ASCII / Latin-1, and TEXT: leading / trailing / inner blanks, tabs, NBSP, line breaks, case and blank twins of a sibling, supplementary-plane characters, U+FFFD, syntax look-alikes, long numerals); one document in four has ONE member with the empty name \"\" somewhere below the root (path 'parent.'); the root's own members have non-empty names (otherwise flattened paths are ambiguous); list indices are canonical decimals",
 			"scalars are NaN-free and -0-free",
 			"'every list item containing at least one scalar' is required of L's lists (the ones rebuilt from Adds); R's replacement lists are mostly generated the same way and sometimes arbitrary"}})
 	evals["C08"] = c08Eval
@@ -112,15 +112,90 @@ func c08FixLists(r *rand.Rand, g *DocGen, w W) W {
 
 var c08KeysOdd = []string{"cpu%", "50%ile", "a b", "ü", "k:v", "#x", "%d", "a"}
 
+// c08KeysText: member names as TEXT.  Any string without the three path metacharacters '.', '[' and ']' is a legal
+// member name that a flatten-style path carries unchanged: names with leading / trailing / inner white space (space,
+// tab, NBSP, newline), names that differ only by case or by surrounding space from a sibling, non-ASCII names incl.
+// supplementary-plane characters and U+FFFD, names that look like syntax of some other notation, numerals incl. very
+// long ones.
+var c08KeysText = []string{"a", " a", "a ", "A", "\ta", "a\t", " ", "a b", " a b ", "a\u00a0", "\u00a0", "a\nb", "\n", "maxConn", "maxconn",
+	"\U0001F680", "\U0001D6FC", "\ufffd", "{a}", "${a}", "a=b", "a:b", "#", "!a", "\\", "/", "a/b", "~", "(", "*", "0", "-1", "01",
+	"18446744073709551616", "9223372036854775808", "true", "null"}
+
+// c08TextKeys draws a pool of 5-8 such names (a small pool, so that the two documents of a pair share names often);
+// a name and its space / case twin are drawn together half of the time.
+func c08TextKeys(r *rand.Rand) []string {
+	n := 5 + r.Intn(4)
+	out := make([]string, 0, n+2)
+	if r.Intn(2) == 0 {
+		out = append(out, pick(r, [][]string{{"a", " a", "a "}, {"a", "A"}, {"maxConn", "maxconn"}, {"a b", " a b "}, {" ", "\u00a0"}, {"a", "a\t", "\ta"}})...)
+	}
+	for len(out) < n {
+		out = append(out, pick(r, c08KeysText))
+	}
+	return out
+}
+
+// c08EmptyName gives one member below the root the empty name "" (one document in four): below a mapping the empty
+// string is a name like any other, its flatten-style path is the parent's path followed by the separator ("parent.").
+// Directly below the root the paths of its descendants would coincide with those of the root's other members, so the
+// root's own members keep non-empty names.
+func c08EmptyName(r *rand.Rand, w W) W {
+	if r.Intn(4) > 0 {
+		return w
+	}
+	var inner []map[string]any
+	var walk func(x W, root bool)
+	walk = func(x W, root bool) {
+		switch v := x.(type) {
+		case []any:
+			for _, e := range v {
+				walk(e, false)
+			}
+		case map[string]any:
+			if c, ok := v["m"].(map[string]any); ok {
+				if !root && len(c) > 0 {
+					inner = append(inner, c)
+				}
+				for _, k := range sortedKeys(c) {
+					walk(c[k], false)
+				}
+			}
+		}
+	}
+	walk(w, true)
+	if len(inner) == 0 {
+		return w
+	}
+	c := pick(r, inner)
+	if _, has := c[""]; has {
+		return w
+	}
+	k := pick(r, sortedKeys(c))
+	if r.Intn(2) == 0 {
+		c[""] = c[k]
+		delete(c, k)
+	} else {
+		c[""] = scalarWire("e")
+	}
+	return w
+}
+
+// c08Doc generates a document with g; one member below the root is sometimes given the empty name.
+func c08Doc(r *rand.Rand, g *DocGen) W {
+	return c08EmptyName(r, g.Doc(r))
+}
+
 func c08Gen(r *rand.Rand) *DocGen {
 	g := stdGen()
-	switch r.Intn(3) {
+	switch r.Intn(4) {
 	case 0:
 		g.Keys = c07KeysB
 	case 1:
 		// keys that are free of the path metacharacters '.', '[' and ']' but otherwise unusual
 		// (the property does not restrict keys beyond what a flatten-style path needs)
 		g.Keys = c08KeysOdd
+	case 2:
+		g.Keys = c08TextKeys(r)
 	}
 	g.MaxDepth = 3 + r.Intn(3)
 	g.PList = 0.35 + 0.3*r.Float64()
@@ -228,12 +303,19 @@ func c08Path(r *rand.Rand, g *DocGen, d W) string {
 			p += "." + comp()
 		case 1:
 			p += fmt.Sprintf("[%d]", r.Intn(4))
+		case 2:
+			if r.Intn(2) == 0 {
+				p += "." // the empty name below an existing position
+			}
 		}
 		return p
 	}
 	for i, n := 0, 1+r.Intn(4); i < n; i++ {
 		if i > 0 {
 			p += "."
+		}
+		if i > 0 && r.Intn(12) == 0 {
+			continue // the empty name (never as the first component)
 		}
 		p += comp()
 	}
@@ -245,7 +327,7 @@ func c08Run(c *Ctx) {
 	for i := 0; i < c.N(4000); i++ {
 		c.Tick()
 		g := c08Gen(r)
-		l := c08FixLists(r, g, g.Doc(r))
+		l := c08FixLists(r, g, c08Doc(r, g))
 		c.Do("recon", c08Recon{l, c08Derive(r, g, l, 0)})
 	}
 	for i := 0; i < c.N(1200); i++ {
@@ -260,19 +342,19 @@ func c08Run(c *Ctx) {
 	for i := 0; i < c.N(300); i++ {
 		c.Tick()
 		g := c08Gen(r)
-		c.Do("empty", c08Apply{D: g.Doc(r)})
+		c.Do("empty", c08Apply{D: c08Doc(r, g)})
 	}
 	for i := 0; i < c.N(1500); i++ {
 		c.Tick()
 		g := c08Gen(r)
-		d := g.Doc(r)
+		d := c08Doc(r, g)
 		p := c08Path(r, g, d)
 		c.Do("delabsent", c08Apply{D: d, Mods: []c07Mod{{"Delete", p, scalarWire(nil), scalarWire(nil)}}, Lookups: []string{p}})
 	}
 	for i := 0; i < c.N(2500); i++ {
 		c.Tick()
 		g := c08Gen(r)
-		d := g.Doc(r)
+		d := c08Doc(r, g)
 		p := c08Path(r, g, d)
 		ty := "Add"
 		old := scalarWire(nil)
@@ -285,7 +367,7 @@ func c08Run(c *Ctx) {
 	for i := 0; i < c.N(1500); i++ {
 		c.Tick()
 		g := c08Gen(r)
-		d := g.Doc(r)
+		d := c08Doc(r, g)
 		var ms []c07Mod
 		var lk []string
 		for j, n := 0, 1+r.Intn(6); j < n; j++ {
